@@ -53,6 +53,12 @@ type SeenSleepCommand struct {
 	Key      SleepCommandKey
 	SeenAt   time.Time
 	SeenFrom identity.AgentID
+
+	// ValidUntil is the last instant at which the command's signed timestamp
+	// is still inside the validity window, i.e. at which a replay would still
+	// pass verification. The entry must not leave the cache before that.
+	// Zero when no signing key is configured (no timestamp check).
+	ValidUntil time.Time
 }
 
 // FloodConfig contains configuration for the flood protocol.
@@ -844,21 +850,30 @@ func (f *Flooder) cleanupNodeInfoCache(now time.Time, expiry time.Duration) {
 }
 
 // cleanupSleepCmdCache removes expired entries from the sleep command cache.
+// An entry whose command could still pass verification (signed timestamp inside
+// the validity window) is never removed, neither by age nor by the size limit:
+// forgetting it would let a replay of the command be accepted a second time.
+// With a signing key configured only verified commands enter the cache, so the
+// entries kept this way are bounded by the commands the operator issued within
+// twice the timestamp window.
 // Must be called with f.sleepCmdMu held.
 func (f *Flooder) cleanupSleepCmdCache(now time.Time, expiry time.Duration) {
 	for key, entry := range f.sleepCmdSeenCache {
-		if now.Sub(entry.SeenAt) > expiry {
+		if now.Sub(entry.SeenAt) > expiry && now.After(entry.ValidUntil) {
 			delete(f.sleepCmdSeenCache, key)
 		}
 	}
 
-	// If still too large, remove oldest entries
+	// If still too large, remove entries until under limit
 	excess := len(f.sleepCmdSeenCache) - f.cfg.MaxSeenCacheSize
 	if excess <= 0 {
 		return
 	}
 	removed := 0
-	for key := range f.sleepCmdSeenCache {
+	for key, entry := range f.sleepCmdSeenCache {
+		if !now.After(entry.ValidUntil) {
+			continue
+		}
 		delete(f.sleepCmdSeenCache, key)
 		removed++
 		if removed >= excess {
@@ -1159,8 +1174,10 @@ func (f *Flooder) NodeInfoSeenCacheSize() int {
 }
 
 // markSleepCmdSeen checks if a sleep/wake command has been seen and marks it as seen.
+// timestamp is the command's signed timestamp; it determines how long the entry
+// has to be kept (see SeenSleepCommand.ValidUntil).
 // Returns true if this is a new command.
-func (f *Flooder) markSleepCmdSeen(originAgent identity.AgentID, commandID uint64, fromPeer identity.AgentID) bool {
+func (f *Flooder) markSleepCmdSeen(originAgent identity.AgentID, commandID uint64, timestamp uint64, fromPeer identity.AgentID) bool {
 	key := SleepCommandKey{
 		OriginAgent: originAgent,
 		CommandID:   commandID,
@@ -1176,11 +1193,15 @@ func (f *Flooder) markSleepCmdSeen(originAgent identity.AgentID, commandID uint6
 		return false
 	}
 
-	f.sleepCmdSeenCache[key] = &SeenSleepCommand{
+	entry := &SeenSleepCommand{
 		Key:      key,
 		SeenAt:   time.Now(),
 		SeenFrom: fromPeer,
 	}
+	if f.signingPubKey != nil {
+		entry.ValidUntil = time.Unix(int64(timestamp), 0).Add(f.timestampWindow)
+	}
+	f.sleepCmdSeenCache[key] = entry
 	return true
 }
 
@@ -1200,7 +1221,7 @@ func (f *Flooder) HandleSleepCommand(fromPeer identity.AgentID, cmd *protocol.Sl
 		return false
 	}
 
-	if !f.markSleepCmdSeen(cmd.OriginAgent, cmd.CommandID, fromPeer) {
+	if !f.markSleepCmdSeen(cmd.OriginAgent, cmd.CommandID, cmd.Timestamp, fromPeer) {
 		return false
 	}
 
@@ -1234,7 +1255,7 @@ func (f *Flooder) HandleWakeCommand(fromPeer identity.AgentID, cmd *protocol.Wak
 		return false
 	}
 
-	if !f.markSleepCmdSeen(cmd.OriginAgent, cmd.CommandID, fromPeer) {
+	if !f.markSleepCmdSeen(cmd.OriginAgent, cmd.CommandID, cmd.Timestamp, fromPeer) {
 		return false
 	}
 
@@ -1323,7 +1344,7 @@ func (f *Flooder) verifyWakeCommand(cmd *protocol.WakeCommand) error {
 // This is used to initiate mesh-wide sleep from this agent.
 // The command should already be signed if signing is required.
 func (f *Flooder) FloodSleepCommand(cmd *protocol.SleepCommand) error {
-	f.markSleepCmdSeen(cmd.OriginAgent, cmd.CommandID, f.localID)
+	f.markSleepCmdSeen(cmd.OriginAgent, cmd.CommandID, cmd.Timestamp, f.localID)
 
 	cmdWithSeen := &protocol.SleepCommand{
 		OriginAgent: cmd.OriginAgent,
@@ -1347,7 +1368,7 @@ func (f *Flooder) FloodSleepCommand(cmd *protocol.SleepCommand) error {
 // This is used to initiate mesh-wide wake from this agent.
 // The command should already be signed if signing is required.
 func (f *Flooder) FloodWakeCommand(cmd *protocol.WakeCommand) error {
-	f.markSleepCmdSeen(cmd.OriginAgent, cmd.CommandID, f.localID)
+	f.markSleepCmdSeen(cmd.OriginAgent, cmd.CommandID, cmd.Timestamp, f.localID)
 
 	// Store pending wake command for forwarding to new peers
 	f.storePendingWake(cmd)
